@@ -167,8 +167,37 @@ def _ns(rng, n):
         yield rng.randrange(0, 4102444800) * 10**9 + 999_999_000 + rng.randrange(0, 1000)
 
 
+def _ns_with_history(nat, rng, n):
+    """the converter is a function of its argument alone: every third instant is first shown to the public helper datetime_to_pv_string as a
+    datetime of the *same instant* in another time zone (what an outside caller may do; the helper's answer is not looked at) - a conversion
+    of a span time must not depend on such earlier calls in the process.  The earlier call is part of the case (`$poke` = the zone's offset
+    in hours), made by the native call wrapper, so a replay file reproduces it."""
+    for i, v in enumerate(_ns(rng, n)):
+        if i % 3 == 0 and v % 1000 == 0:
+            yield {"unix_nano": v, "$poke": rng.choice([1, -5, 9])}
+        else:
+            yield {"unix_nano": v}
+
+
+def _call_unix(nat, args):
+    import importlib
+    from datetime import datetime, timezone, timedelta
+    u = importlib.import_module("tel2puml.utils")
+    a = dict(args)
+    poke = a.pop("$poke", None)
+    if poke is not None:
+        try:
+            u.datetime_to_pv_string((datetime(1970, 1, 1, tzinfo=timezone.utc) + timedelta(microseconds=a["unix_nano"] // 1000)).astimezone(timezone(timedelta(hours=poke))))
+        except Exception:  # noqa: BLE001
+            pass
+    return u.unix_nano_to_pv_string(**a)
+
+
+NATIVE_CALL = {"unix_nano_to_pv_string": _call_unix}
+
+
 GEN = {
-    "unix_nano_to_pv_string": lambda nat, rng, n: ({"unix_nano": v} for v in _ns(rng, n)),
+    "unix_nano_to_pv_string": _ns_with_history,
     "convert_timestamp_to_unix_nano": lambda nat, rng, n: ({"iso_timestamp": nat.ns["pv_str_of"](k)} for k in _ks_signed(rng, n)),
 }
 FROM_MODEL = {
